@@ -31,11 +31,11 @@ VARIABLES sysmods,      \* sys.modules restricted to Mod, in insertion order
           pending,      \* built-in glue functions not yet run
           cacheLen,     \* the length cache
           lock,
-          pc, snap, idx, popB, popM,          \* per thread
+          pc, snap, idx, popB, popM, skipped, \* per thread (skipped: vanished modules passed over in this scan)
           nExtract, startMods, removedSince,  \* per thread (history)
           calls, warned, envSteps,            \* history
           lenCollision, lastScanned, vanishedPop
-vars == <<sysmods, fnLeft, pending, cacheLen, lock, pc, snap, idx, popB, popM, nExtract, startMods,
+vars == <<sysmods, fnLeft, pending, cacheLen, lock, pc, snap, idx, popB, popM, skipped, nExtract, startMods,
           removedSince, calls, warned, envSteps, lenCollision, lastScanned, vanishedPop>>
 
 InSys(m) == \E i \in 1..Len(sysmods) : sysmods[i] = m
@@ -45,12 +45,12 @@ Without(s, m) == SelectSeq(s, LAMBDA x : x # m)
 Init == /\ sysmods = <<>> /\ fnLeft = [m \in Mod |-> Flavour[m] # "none"] /\ pending = HasB
         /\ cacheLen = 0 /\ lock = NoT
         /\ pc = [t \in Thr |-> "idle"] /\ snap = [t \in Thr |-> <<>>] /\ idx = [t \in Thr |-> 0]
-        /\ popB = [t \in Thr |-> FALSE] /\ popM = [t \in Thr |-> FALSE]
+        /\ popB = [t \in Thr |-> FALSE] /\ popM = [t \in Thr |-> FALSE] /\ skipped = [t \in Thr |-> 0]
         /\ nExtract = [t \in Thr |-> 0] /\ startMods = [t \in Thr |-> {}] /\ removedSince = [t \in Thr |-> {}]
         /\ calls = <<>> /\ warned = 0 /\ envSteps = 0
         /\ lenCollision = FALSE /\ lastScanned = {} /\ vanishedPop = FALSE
 
-ThreadVars == <<pc, snap, idx, popB, popM, nExtract, startMods>>
+ThreadVars == <<pc, snap, idx, popB, popM, skipped, nExtract, startMods>>
 Hist == <<calls, warned, lenCollision, lastScanned, vanishedPop>>
 
 (* ---- the environment: imports, removals, re-insertions (same module object) *)
@@ -66,29 +66,34 @@ Start(t) == /\ pc[t] = "idle" /\ nExtract[t] < MaxExtract /\ Go(t, "check")
             /\ nExtract' = [nExtract EXCEPT ![t] = @ + 1]
             /\ startMods' = [startMods EXCEPT ![t] = SetOf(sysmods)]
             /\ removedSince' = [removedSince EXCEPT ![t] = {}]
-            /\ UNCHANGED <<sysmods, fnLeft, pending, cacheLen, lock, snap, idx, popB, popM, envSteps>> /\ UNCHANGED Hist
+            /\ UNCHANGED <<sysmods, fnLeft, pending, cacheLen, lock, snap, idx, popB, popM, skipped, envSteps>> /\ UNCHANGED Hist
 (* line 94: the fast path compares only lengths *)
 LeaveCheck(t) == /\ pc[t] = "check"
                  /\ IF Len(sysmods) = cacheLen
                     THEN Go(t, "fast") /\ lenCollision' = (lenCollision \/ SetOf(sysmods) # lastScanned)
                     ELSE Go(t, "wait") /\ lenCollision' = lenCollision
-                 /\ UNCHANGED <<sysmods, fnLeft, pending, cacheLen, lock, snap, idx, popB, popM, nExtract, startMods,
+                 /\ UNCHANGED <<sysmods, fnLeft, pending, cacheLen, lock, snap, idx, popB, popM, skipped, nExtract, startMods,
                                 removedSince, calls, warned, envSteps, lastScanned, vanishedPop>>
 LeaveFast(t) == /\ pc[t] = "fast" /\ Go(t, "idle")
-                /\ UNCHANGED <<sysmods, fnLeft, pending, cacheLen, lock, snap, idx, popB, popM, nExtract, startMods,
+                /\ UNCHANGED <<sysmods, fnLeft, pending, cacheLen, lock, snap, idx, popB, popM, skipped, nExtract, startMods,
                                removedSince, envSteps>> /\ UNCHANGED Hist
 (* lines 98-99: take the lock, snapshot the module names *)
 LeaveWait(t) == /\ pc[t] = "wait" /\ lock = NoT /\ lock' = t /\ Go(t, "snap")
                 /\ snap' = [snap EXCEPT ![t] = sysmods] /\ idx' = [idx EXCEPT ![t] = 0]
+                /\ skipped' = [skipped EXCEPT ![t] = 0]
                 /\ UNCHANGED <<sysmods, fnLeft, pending, cacheLen, popB, popM, nExtract, startMods, removedSince, envSteps>>
                 /\ UNCHANGED Hist
 \* advance to the next module of the snapshot, or finish the scan: the cache is set to len(snapshot) (line 130)
-Advance(t) == IF idx[t] < Len(snap[t])
-              THEN /\ idx' = [idx EXCEPT ![t] = @ + 1] /\ Go(t, "next")
-                   /\ UNCHANGED <<cacheLen, lastScanned>>
-              ELSE /\ Go(t, "cache") /\ cacheLen' = Len(snap[t]) /\ lastScanned' = SetOf(snap[t])
-                   /\ UNCHANGED idx
-LeaveSnap(t) == /\ pc[t] = "snap" /\ Advance(t)
+Advance(t, sk) ==
+              /\ skipped' = [skipped EXCEPT ![t] = sk]
+              /\ IF idx[t] < Len(snap[t])
+                 THEN /\ idx' = [idx EXCEPT ![t] = @ + 1] /\ Go(t, "next")
+                      /\ UNCHANGED <<cacheLen, lastScanned>>
+                 ELSE /\ Go(t, "cache") /\ lastScanned' = SetOf(snap[t])
+                      \* repaired: skipped (vanished) modules do not count, so a module that comes back is looked at again
+                      /\ cacheLen' = IF FixedF9 THEN Len(snap[t]) - sk ELSE Len(snap[t])
+                      /\ UNCHANGED idx
+LeaveSnap(t) == /\ pc[t] = "snap" /\ Advance(t, skipped[t])
                 /\ UNCHANGED <<sysmods, fnLeft, pending, lock, snap, popB, popM, nExtract, startMods, removedSince,
                                calls, warned, envSteps, lenCollision, vanishedPop>>
 Cur(t) == snap[t][idx[t]]
@@ -99,19 +104,21 @@ LeaveNext(t) == /\ pc[t] = "next"
                 /\ pending' = pending \ {Cur(t)}
                 /\ vanishedPop' = (vanishedPop \/ ~InSys(Cur(t)))
                 /\ Go(t, "popb")
-                /\ UNCHANGED <<sysmods, fnLeft, cacheLen, lock, snap, idx, popM, nExtract, startMods, removedSince,
+                /\ UNCHANGED <<sysmods, fnLeft, cacheLen, lock, snap, idx, popM, skipped, nExtract, startMods, removedSince,
                                calls, warned, envSteps, lenCollision, lastScanned>>
 \* repaired (FixedF9): a module that is no longer in sys.modules is skipped before anything is popped
-SkipVanished(t) == /\ pc[t] = "next" /\ FixedF9 /\ ~InSys(Cur(t)) /\ Advance(t)
+SkipVanished(t) == /\ pc[t] = "next" /\ FixedF9 /\ ~InSys(Cur(t)) /\ Advance(t, skipped[t] + 1)
                    /\ UNCHANGED <<sysmods, fnLeft, pending, lock, snap, popB, popM, nExtract, startMods, removedSince,
                                   calls, warned, envSteps, lenCollision, vanishedPop>>
 (* lines 102-107: sys.modules[name].__dict__.pop(...); a vanished module is treated like "has no glue" *)
 LeavePopb(t) == /\ pc[t] = "popb"
-                /\ popM' = [popM EXCEPT ![t] = InSys(Cur(t)) /\ fnLeft[Cur(t)]]
-                /\ fnLeft' = IF InSys(Cur(t)) THEN [fnLeft EXCEPT ![Cur(t)] = FALSE] ELSE fnLeft
-                /\ vanishedPop' = (vanishedPop \/ ~InSys(Cur(t)))
+                \* repaired (FixedF9): the module object was fetched once at "next"; a later removal cannot race
+                /\ LET present == FixedF9 \/ InSys(Cur(t)) IN
+                   /\ popM' = [popM EXCEPT ![t] = present /\ fnLeft[Cur(t)]]
+                   /\ fnLeft' = IF present THEN [fnLeft EXCEPT ![Cur(t)] = FALSE] ELSE fnLeft
+                   /\ vanishedPop' = (vanishedPop \/ ~present)
                 /\ Go(t, "popm")
-                /\ UNCHANGED <<sysmods, pending, cacheLen, lock, snap, idx, popB, nExtract, startMods, removedSince,
+                /\ UNCHANGED <<sysmods, pending, cacheLen, lock, snap, idx, popB, skipped, nExtract, startMods, removedSince,
                                calls, warned, envSteps, lenCollision, lastScanned>>
 (* lines 108-127: module-supplied glue preferred; an exception is only a warning *)
 LeavePopm(t) ==
@@ -127,16 +134,16 @@ LeavePopm(t) ==
         /\ removedSince' = IF kind = "module" /\ fl = "removes" /\ InSys(ImpTarget)
                            THEN [u \in Thr |-> removedSince[u] \cup {ImpTarget}] ELSE removedSince
   /\ Go(t, "called")
-  /\ UNCHANGED <<fnLeft, pending, cacheLen, lock, snap, idx, popB, popM, nExtract, startMods, envSteps,
+  /\ UNCHANGED <<fnLeft, pending, cacheLen, lock, snap, idx, popB, popM, skipped, nExtract, startMods, envSteps,
                  lenCollision, lastScanned, vanishedPop>>
-LeaveCalled(t) == /\ pc[t] = "called" /\ Advance(t)
+LeaveCalled(t) == /\ pc[t] = "called" /\ Advance(t, skipped[t])
                   /\ UNCHANGED <<sysmods, fnLeft, pending, lock, snap, popB, popM, nExtract, startMods, removedSince,
                                  calls, warned, envSteps, lenCollision, vanishedPop>>
 LeaveCache(t) == /\ pc[t] = "cache" /\ lock' = NoT /\ Go(t, "release")
-                 /\ UNCHANGED <<sysmods, fnLeft, pending, cacheLen, snap, idx, popB, popM, nExtract, startMods,
+                 /\ UNCHANGED <<sysmods, fnLeft, pending, cacheLen, snap, idx, popB, popM, skipped, nExtract, startMods,
                                 removedSince, envSteps>> /\ UNCHANGED Hist
 LeaveRelease(t) == /\ pc[t] = "release" /\ Go(t, "idle")
-                   /\ UNCHANGED <<sysmods, fnLeft, pending, cacheLen, lock, snap, idx, popB, popM, nExtract, startMods,
+                   /\ UNCHANGED <<sysmods, fnLeft, pending, cacheLen, lock, snap, idx, popB, popM, skipped, nExtract, startMods,
                                   removedSince, envSteps>> /\ UNCHANGED Hist
 
 ThreadStep(t) == Start(t) \/ LeaveCheck(t) \/ LeaveFast(t) \/ LeaveWait(t) \/ LeaveSnap(t) \/ LeaveNext(t) \/ SkipVanished(t)
@@ -165,4 +172,6 @@ WarnOnly == warned <= Cardinality({m \in Mod : Flavour[m] = "raises"})
 AtMostOnceX == vanishedPop \/ AtMostOnce
 ModuleBeatsBuiltinX == vanishedPop \/ ModuleBeatsBuiltin
 InTime == lenCollision \/ vanishedPop \/ InTimeStrict
+\* with the F9 repair in place only the length cache (F4) remains as a named cause
+InTimeF4 == lenCollision \/ InTimeStrict
 =============================================================================
